@@ -108,7 +108,7 @@ c.ensures('time-line-restarts', "not ghost('stopped_seen') ==> self._cue_time ==
 # ---- Machine._wait: 0 never blocks; seconds in logical/rgb, milliseconds in raw; a pattern waits for a time of day
 for mode in ('LOGICAL', 'RAW', 'RGB'):
     for kind in ('real', 'int'):
-        c = contract('bardolph/vm/machine.py', 'Machine._wait', serves=['C10', 'C01'], name='Machine._wait[%s,%s]' % (mode, kind))
+        c = contract('bardolph/vm/machine.py', 'Machine._wait', serves=['C10', 'C01', 'C14'], name='Machine._wait[%s,%s]' % (mode, kind))
         def _setup(b, case, mode=mode, kind=kind):
             m = lib.machine(b, mode, lib.light_set_with(b, {}))
             lib.sym_regs(b, m, kind, ('time',))
